@@ -12,6 +12,7 @@ from xknx.core import XknxConnectionState
 from xknx.exceptions import CommunicationError
 from xknx.io.const import CONNECTIONSTATE_REQUEST_TIMEOUT, HEARTBEAT_RATE
 from xknx.io.data_connection import ConnectionHeartbeat
+from xknx.io.device_management_connection import UDPDeviceManagementConnection
 from xknx.io.tunnel import UDPTunnel
 from xknx.knxip import ErrorCode
 
@@ -30,8 +31,9 @@ LEVEL_TEXT = (
 )
 LEVEL_NOTE = (
     "Trusted: asyncio timers on the virtual clock, the scripted gateway. Judged: number and order of calls, that a repetition "
-    "follows a failure without a heartbeat period in between, that the next period starts HEARTBEAT_RATE after the previous round "
-    "(window [round start + 70 s, round end + 70 s], so start-anchored and end-anchored timers both pass), exactly one on_failure "
+    "follows a failure without a heartbeat period in between, that the next round's first request comes one HEARTBEAT_RATE after the END of the previous (successful) round "
+    "- also when that round consumed time for lost answers, timeouts and repetitions (a start-anchored / fixed-rate timer that "
+    "shortens the pause after a slow round fails) -, exactly one on_failure "
     "after the 4th consecutive failure or a raise and none otherwise, no call after the end / after stop(), never two requests at "
     "once. Recorded only: exact equality of the period with round end + 70 s, on_failure time."
 )
@@ -47,11 +49,14 @@ class Monitor:
     """Reference automaton, driven by observed times (so that only what the statement fixes is judged)."""
 
     def __init__(self, t_start):
+        self.last_round_duration = 0.0
+        self.periods_after_slow_round = 0
         self.restart(t_start)
         self.failures_declared = 0
         self.problem = None  # (mechanism, detail)
         self.exact_period = 0
         self.inexact_period = 0
+
 
     def restart(self, t):
         self.state = "idle"  # idle | retry | ended
@@ -82,6 +87,9 @@ class Monitor:
                 self.exact_period += 1
             else:
                 self.inexact_period += 1
+            if self.last_round_duration >= CONNECTIONSTATE_REQUEST_TIMEOUT - EPS:
+                self.periods_after_slow_round += 1  # the earlier round lost answers: timeouts, repetitions, then success
+            self.last_round_duration = 0.0
             self.round_start = t
         else:  # retry
             if t < self.last_end - EPS:
@@ -98,7 +106,10 @@ class Monitor:
         if outcome == "S":
             self.fails = 0
             self.state = "idle"
-            self.anchor_lo, self.anchor_hi = self.round_start, t
+            # the next period starts when this round is over: time spent waiting for answers and repeating is not
+            # part of the period ("sent every heartbeat period" = one period between a finished round and the next request)
+            self.anchor_lo = self.anchor_hi = t
+            self.last_round_duration = t - self.round_start
         elif outcome in "FN":
             self.fails += 1
             if self.fails == 4:
@@ -295,6 +306,7 @@ def judge_script(ctx, loop, script, stop_at=None, restart=False, start_at=None):
     ctx.count("on_failure_calls", mon.failures_declared)
     ctx.count("period_exact_end_plus_70", mon.exact_period)
     ctx.count("period_other_within_window", mon.inexact_period)
+    ctx.count("periods_judged_after_a_round_with_timeouts", mon.periods_after_slow_round)
     if leftover:
         ctx.count("tasks_alive_after_end_recorded", leftover)
     if stopped:
@@ -319,7 +331,7 @@ def judge_script(ctx, loop, script, stop_at=None, restart=False, start_at=None):
 # part 2: a real UDPTunnel, heartbeats answered by the scripted gateway
 
 
-def run_tunnel(script, reuse=0, auto=True):
+def run_tunnel(script, reuse=0, auto=True, kind="tunnel"):
     """script over o(k) / e(rror status) / s(ilent); returns (monitor, history, losses, requests, late requests)."""
     loop = new_loop()
     gw = Gateway(loop)
@@ -333,6 +345,7 @@ def run_tunnel(script, reuse=0, auto=True):
         return {"o": "ok", "e": ErrorCode.E_CONNECTION_ID, "s": "silent", "r": 0x30}[o]
 
     gw.hb_policy = hb_policy
+    devconn = kind == "devconn"
 
     def close_silent(mon, t):
         if box.get("pending") == "s":
@@ -362,6 +375,12 @@ def run_tunnel(script, reuse=0, auto=True):
             o = box.pop("pending", None)
             if o is not None:
                 mon.call_end(t, "S" if o == "o" else "F")
+        elif kind == "tx" and typ == "DisconnectRequest" and devconn and not box.get("user_disconnect"):
+            # the device-management connection closes itself when the heartbeat gives up (no connection manager there)
+            hist.append((round(t - box["t0"], 6), "DISCONNECTED"))
+            close_silent(mon, t)
+            mon.on_failure(t)
+            box["losses"] += 1
 
     gw.listeners.append(listener)
 
@@ -383,8 +402,11 @@ def run_tunnel(script, reuse=0, auto=True):
     async def main():
         xknx = XKNX()
         xknx.connection_manager.register_connection_state_changed_cb(state_cb)
-        tunnel = UDPTunnel(xknx, cemi_received_callback=lambda raw: None, gateway_ip="10.0.0.2", gateway_port=3671,
-                           local_ip="10.0.0.1", auto_reconnect=auto, auto_reconnect_wait=3)
+        if devconn:
+            tunnel = UDPDeviceManagementConnection(gateway_ip="10.0.0.2", gateway_port=3671, local_ip="10.0.0.1")
+        else:
+            tunnel = UDPTunnel(xknx, cemi_received_callback=lambda raw: None, gateway_ip="10.0.0.2", gateway_port=3671,
+                               local_ip="10.0.0.1", auto_reconnect=auto, auto_reconnect_wait=3)
         box["t0"] = loop.time()
         await tunnel.connect()
         for n in range(reuse):  # object reuse: the user closes and re-opens the connection on the same tunnel object
@@ -433,22 +455,27 @@ def expected_losses(script):
     return losses
 
 
-def judge_tunnel(ctx, script, reuse=0, auto=True):
+def judge_tunnel(ctx, script, reuse=0, auto=True, kind="tunnel"):
     ctx.ev()
+    if kind == "devconn":
+        auto = False  # a device-management connection closes for good when its heartbeat gives up
     try:
-        mon, hist, losses, n_hb, late = run_tunnel(script, reuse, auto)
+        mon, hist, losses, n_hb, late = run_tunnel(script, reuse, auto, kind)
     except (Deadlock, LoopBudget) as exc:
         ctx.inconclusive(f"tunnel heartbeat script {script!r}: driver did not finish: {exc!r}")
         return
-    ctx.count("tunnel_runs")
+    ctx.count("tunnel_runs" if kind == "tunnel" else "devmgmt_runs")
+    if kind == "devconn":
+        ctx.count("devmgmt_periods_judged_after_a_round_with_timeouts", mon.periods_after_slow_round)
     if reuse:
         ctx.count("tunnel_runs_reused_object" if auto else "tunnel_runs_reused_object_noauto")
     if hist and hist[-1][0] == "receive_path_exceptions_recorded":
         ctx.count("receive_path_exceptions_recorded", len(hist[-1][1]))
     ctx.count("tunnel_connectionstate_requests", n_hb)
+    ctx.count("tunnel_periods_judged_after_a_round_with_timeouts", mon.periods_after_slow_round)
     ctx.count("tunnel_raw_status_answers", sum(v for k, v in hist if k == "raw_status_answers"))
     ctx.count("tunnel_losses_declared", losses)
-    ctx.distinct(("tunnel", script, reuse, auto))
+    ctx.distinct((kind, script, reuse, auto))
     if script in ("ssss", "eseo", "sseso"):
         ctx.sample({"tunnel_script": script, "history": hist[:20]}, cap=8)
     problem = mon.problem
@@ -461,9 +488,10 @@ def judge_tunnel(ctx, script, reuse=0, auto=True):
         problem = ("request-after-user-disconnect", {"late_requests": late})
     if problem is not None:
         mech, detail = problem
-        ctx.violation(f"tunnel-heartbeat-{mech}", {"part": "tunnel", "script": script, "reuse": reuse, "auto": auto,
+        ctx.violation(f"{'tunnel' if kind == 'tunnel' else 'devmgmt-connection'}-heartbeat-{mech}",
+                      {"part": "tunnel", "kind": kind, "script": script, "reuse": reuse, "auto": auto,
                                                     "history": hist, "detail": detail},
-                      f"UDPTunnel (auto_reconnect={auto}, {reuse} disconnect()/connect() cycles on the same object before) with "
+                      f"{'UDPTunnel' if kind == 'tunnel' else 'UDPDeviceManagementConnection'} (auto_reconnect={auto}, {reuse} disconnect()/connect() cycles on the same object before) with "
                       f"heartbeat answers {script!r} (o=ok e=error status s=silent r=raw status octet 0x30): {mech}; history {hist[-14:]}")
 
 
@@ -480,7 +508,9 @@ def run(ctx):
                 f"with on_failure restarting the heartbeat; real UDPTunnel with gateway answers over {{ok,error,silent}} (+ raw status octet outside ErrorCode up to length max(4, bound-2)) of length <= "
                 f"{n_tunnel}; distinct = (variant, string, stop index)")
     ctx.require("connectionstate_calls", "on_failure_calls", "runs_plain", "runs_stop", "runs_restart", "runs_restart+stop", "runs_restart+start", "runs_start",
-                "tunnel_runs_reused_object", "tunnel_runs_reused_object_noauto", "tunnel_raw_status_answers", "tunnel_runs",
+                "tunnel_runs_reused_object", "tunnel_runs_reused_object_noauto", "tunnel_raw_status_answers", "periods_judged_after_a_round_with_timeouts",
+                "tunnel_periods_judged_after_a_round_with_timeouts", "devmgmt_periods_judged_after_a_round_with_timeouts",
+                "devmgmt_runs", "tunnel_runs",
                 "tunnel_losses_declared", "stopped_runs")
     loop = new_loop()
     idx = 0
@@ -532,13 +562,14 @@ def run(ctx):
             judge_tunnel(ctx, "".join(tup), reuse=1 + (idx % 2))  # the same tunnel object after disconnect() + connect()
             if length <= 4:
                 judge_tunnel(ctx, "".join(tup), reuse=1, auto=False)
+                judge_tunnel(ctx, "".join(tup), reuse=idx % 2, kind="devconn")
     ctx.exhaustive = True
 
 
 def replay(ctx, witness):
     ctx.rule = "replay of one recorded script"
     if witness.get("part") == "tunnel":
-        judge_tunnel(ctx, witness["script"], witness.get("reuse", 0), witness.get("auto", True))
+        judge_tunnel(ctx, witness["script"], witness.get("reuse", 0), witness.get("auto", True), witness.get("kind", "tunnel"))
         ctx.distinct("replay")
         ctx.distinct("replay2")
         return
